@@ -96,3 +96,9 @@ CHECKS["C13"] = (
     "complete sweep of single variants and variant pairs over a small reference x every contain-or-avoid 1..2-block location x strands; random references with 1..4 variants; one recorded finding (K1), one repaired (minus-strand start frame after incorporation)",
     "DESIGN.md 5/C13",
 )
+
+CHECKS["C12"] = (
+    "runtime monitoring: independent GenBank reader (Bio.SeqIO) on every file written by collection_to_genbank compared with the source model (types, join parts, strand, identifiers, /translation vs independent translation), export -> parse_genbank in SORTED / LOCUS_TAG / HYBRID modes with mode-agreement monitor, and an independent-writer leg (Biopython-written records with /codon_start) for the parsers",
+    "random collections of 1..6 single-transcript genes (coding with start frames 0/1/2, five non-coding biotypes, multi-exon, both strands, feature collections) x 2 flavours x update_translations x 3 parser modes, plus a single-gene grid; one defect repaired (writer omitted /codon_start)",
+    "DESIGN.md 5/C12",
+)
